@@ -5,7 +5,7 @@ import os
 import vf
 
 HARNESS = "vbft_bvbft"
-CONFIGS = [(4, 1), (7, 2)]
+CONFIGS = [(4, 1), (7, 2), (6, 1), (8, 2)]   # (6,1), (8,2): N > 3C+1, where 2C+1 < N-(N-1)/3
 
 
 def build(ctx):
@@ -123,7 +123,10 @@ def classify(n, obs):
     elif path == "msgs" and p in in_msgs:
         tag = "proposer-counted-twice"
     else:
-        tag = "fewer-than-quorum-claimed"
+        # every counted signature is valid and for the declared block, there are just fewer than N-(N-1)/3 of them:
+        # the decision threshold itself is too low for this (N, C)
+        c = dict(CONFIGS).get(n, -1)
+        tag = "fewer-than-quorum-claimed[%s,N=%d,C=%d]" % ("fallback" if path == "sigs" else "getCommitConsensus", n, c)
     return "commitDone/%s:%s" % (path, tag)
 
 
